@@ -322,6 +322,10 @@ func (g *Gen) binExpr(c *Case, d int) string {
 	} else {
 		op = g.pick(arith...)
 	}
+	if op == "^" {
+		// keep powers in a range where Go's math.Pow and the C library agree (no denormals)
+		return "(" + g.vectorExpr(c, d-1) + " ^ " + g.pick("2", "0.5", "-1", "3", "0", "1") + ")"
+	}
 	switch g.r.Intn(4) {
 	case 0:
 		return "(" + g.vectorExpr(c, d-1) + " " + op + " " + g.scalarExpr(c, d-1) + ")"
